@@ -61,8 +61,10 @@ func zzNewReader(src io.Reader, decl *FileDecl, bufsize int) *reader {
 
 func zzRowsDecl(rows, LL int) *FileDecl {
 	name := "e"
+	any := "."
+	// c2 is picked by a line_pattern (compiled through the shared regexp cache on every match)
 	return &FileDecl{Envelopes: []*EnvelopeDecl{{Name: &name, ByRows: zzIntPtr(rows),
-		Columns: []*ColumnDecl{{Name: "c1", StartPos: 1, Length: LL}}}}}
+		Columns: []*ColumnDecl{{Name: "c1", StartPos: 1, Length: LL}, {Name: "c2", StartPos: 1, Length: 1, LinePattern: &any}}}}}
 }
 
 // C06FlOldRows: old fixed-length reader, by_rows envelopes over a 16-byte bufio buffer and a
@@ -75,7 +77,11 @@ func C06FlOldRows() {
 	f := zzMakeLines(NL, LL)
 	rows := 1 + zz.NondetChoice("rows", 2)
 	src := &zzChunkReader{data: f.input, failAt: -1, cuts: zzCuts(zz.Param("CUTS", 1), len(f.input))}
-	r := zzNewReader(src, zzRowsDecl(rows, LL), 16)
+	decl := zzRowsDecl(rows, LL)
+	if zz.Param("FREEZE", 0) == 1 {
+		zz.Freeze(decl) // the validated declaration is shared by every Transform of the Schema
+	}
+	r := zzNewReader(src, decl, 16)
 	callRelease := zz.NondetBool("callRelease")
 	rec := 0
 	for i := 0; i < NL+2; i++ {
